@@ -150,6 +150,38 @@ def reader_part(work, binp, cov, quick, seed):
     return traces
 
 
+def tso_part(work, binp, cov, quick, seed):
+    """C02, the revision allocator on its own: Deal next to Commits (sequencer, election callback, follower sync) that name a revision
+    above the allocator -- Tso.tla model-checked, its behaviours executed on the real allocator through the yield point inside Commit."""
+    import fam_read
+    base = dict(Dealers={"d1", "d2"}, Committers={"k1", "k2"}, MaxDeals=4 if quick else 5, Ahead={0, 2, 3}, CasCommit=True, GenHist=False)
+    cfg = cfg_constants(base) + "INIT Init\nNEXT Next\nINVARIANTS UniqueDeals DealsIncrease\nPROPERTIES AllocatorMonotone\nCHECK_DEADLOCK FALSE\n"
+    r = tlc(work, "Tso.tla", cfg, timeout=900, name="mctso2")
+    if r["violated"] or not r.get("ok"):
+        raise Undecided("TLC on Tso.tla: %s %s" % (r["violated"], r["error"]))
+    cov["states"] += r["distinct"]; cov["transitions"] += r["states"]
+    cov["mc_runs"].append(dict(module="Tso.tla", config="2 dealers, 2 commits naming revisions 0/2/3 above the allocator, %d deals" % base["MaxDeals"],
+                               distinct_states=r["distinct"], states_generated=r["states"], invariants=["UniqueDeals", "DealsIncrease"], properties=["AllocatorMonotone"]))
+    rs = tlc(work, "Tso.tla", cfg.replace("CasCommit = TRUE", "CasCommit = FALSE"), timeout=900, name="mctso3")
+    cov["mc_runs"].append(dict(module="Tso.tla", config="the same with a plain store instead of the compare-and-swap (what Commit must not do)", counterexample_found=bool(rs["violated"])))
+    n = 400 if quick else 4000
+    g = tlc(work, "Tso.tla", cfg_constants(dict(base, GenHist=True)) + "INIT Init\nNEXT Next\nINVARIANTS Dump\nCHECK_DEADLOCK FALSE\n", workers=1, timeout=900,
+            extra=["-simulate", "num=%d" % (n * 3), "-depth", "12", "-seed", str(seed)], name="gentso")
+    behs = parse_behaviours(g["outfile"], limit=n, seed=seed)
+    if not behs:
+        raise Undecided("no behaviours of Tso.tla generated")
+    rep, traces, _ = fam_read.seqrun(work, binp, behs, "memkv", 8, [], cmd="tsorun", name="tsorun")
+    cov["evaluations"] += rep.get("behaviours", 0); cov["distinct_nontrivial"] += rep.get("nontrivial", 0)
+    cov["replay"].append(dict(what="behaviours of Tso.tla on the real revision allocator (Commit stopped at its yield point)", behaviours=rep.get("behaviours", 0),
+                              executed=rep.get("agreed", 0), not_executable=rep.get("obs_mismatch", 0)))
+    log("tsorun: %d behaviours of Tso.tla, %d executed on the real allocator" % (rep.get("behaviours", 0), rep.get("agreed", 0)))
+    if rep.get("agreed", 0) < rep.get("behaviours", 0) // 2:
+        raise Undecided("fewer than half of the behaviours of Tso.tla could be executed")
+    ntr, v = validate_all(work, traces, ["M_UniqueRevision", "M_DealIsSpec", "M_CommitPublishes"], module="TraceTso.tla", chunks=4)
+    cov["traces_validated_against_impl"] += ntr
+    return v
+
+
 def check_write(prop, tier, seed):
     t0 = time.time()
     rnd = random.Random(seed)
@@ -289,6 +321,11 @@ def check_write(prop, tier, seed):
             raise fr_failed
         elif prop == "C01":
             v2 = race_part(work, binp, cov, tier == "quick", seed)
+            if v2:
+                violations += 1
+                report_violation(prop, seed, v2)
+        elif prop == "C02":
+            v2 = tso_part(work, binp, cov, tier == "quick", seed)
             if v2:
                 violations += 1
                 report_violation(prop, seed, v2)
